@@ -145,7 +145,7 @@ theorem batchLoopM_closed (hc : ClosedM m P) (inj : BSt → Nat → BSt) (hinj :
 theorem pollM_closed (hc : ClosedM m P) (inj : BSt → Nat → BSt) (hinj : ∀ s site, P s → P (inj s site))
     (s : BSt) (h : P s) : P (pollM m inj s) := by
   unfold pollM
-  have h1 := populate_closed' hc.h.refresh hc.q inj hinj s h
+  have h1 := populate_closed' hc.h.frame hc.h.refresh hc.q inj hinj s h
   generalize populate inj s = pr at h1 ⊢
   obtain ⟨s1, count⟩ := pr
   dsimp only at h1 ⊢
@@ -171,7 +171,7 @@ theorem exitLoopM_closed (hc : ClosedM m P) (inj : BSt → Nat → BSt) (hinj : 
         (hc.h.frame _ _ (checkFailuresM_closed hc inj hinj _ h1) (flushSinks_frame _))))
     · have h0 : P { (allEmpty s).1 with now := (allEmpty s).1.now + tick } :=
         hc.h.frame _ _ h1 (Frame.of_eq rfl rfl rfl rfl rfl rfl rfl rfl rfl rfl rfl rfl rfl (fun _ h => h))
-      have h2 := populate_closed' hc.h.refresh hc.q inj hinj _ h0
+      have h2 := populate_closed' hc.h.frame hc.h.refresh hc.q inj hinj _ h0
       generalize populate inj _ = pr at h2 ⊢
       obtain ⟨s1, count⟩ := pr
       dsimp only at h2 ⊢
